@@ -13,7 +13,7 @@ PROP = {
         # plain u32 values without drop glue (the crate's needs_drop == false paths): values are the
         # identities, "dropped" = vanished from the pool, so the model lines apply
         {"tag": "c03u32", "bin": "c03", "args": ["--elem", "u32"], "timeout": {"quick": 600, "thorough": 1200}},
-        # arrays above 64 KiB (10000 tracked elements): the conversions to Vec / Box<[T]> / native array / iterator
+        # arrays above 64 KiB (10000 tracked elements; also split / concat / lengthen / shorten at that size, and one-byte elements with a destructor through every conversion): the conversions to Vec / Box<[T]> / native array / iterator
         # and back move every element silently, and dropping the result releases each identity once (direct oracles)
         {"tag": "c03big", "bin": "c03", "args": ["--big"], "model": False, "timeout": 300},
         # heap-payload elements with the bin rebuilt under AddressSanitizer (nightly): double free /
